@@ -49,6 +49,15 @@ pub fn get_position(
     position
 }
 
+// A stored record belongs to the trader it names (an absent record names nobody)
+pub fn require_position_owner(position: &Position, trader: &Addr) -> StdResult<()> {
+    if position.trader != Addr::unchecked("") && position.trader != *trader {
+        return Err(StdError::generic_err("No position found"));
+    }
+
+    Ok(())
+}
+
 // Creates an asset from the eligible collateral and msg sent
 pub fn get_asset(info: MessageInfo, eligible_collateral: AssetInfo) -> Asset {
     match eligible_collateral.clone() {
